@@ -11,7 +11,36 @@ import (
 // routines; under the symbolic engine they are replaced by the repository's own pure-Go
 // implementations (ast/decode.go, ast/api_compat.go: what non-amd64 builds run). Replays run
 // the real natives.
+// verifUnquote: what native unquote does for the simple two-character escapes used by the
+// document families here (\/ \\ \" \n \t); \u sequences are outside these families.
+func verifUnquote(s string) (string, types.ParsingError) {
+	out := make([]byte, 0, len(s))
+	for i := 0; i < len(s); i++ {
+		c := s[i]
+		if c != '\\' {
+			out = append(out, c)
+			continue
+		}
+		i++
+		if i >= len(s) {
+			return "", types.ERR_EOF
+		}
+		switch s[i] {
+		case '/', '\\', '"':
+			out = append(out, s[i])
+		case 'n':
+			out = append(out, '\n')
+		case 't':
+			out = append(out, '\t')
+		default:
+			return "", types.ERR_INVALID_ESCAPE
+		}
+	}
+	return string(out), 0
+}
+
 func verifAstStubs() {
+	v.Stub("github.com/bytedance/sonic/unquote.String", verifUnquote)
 	// alg.Quote of the plain ASCII keys/strings these document families use
 	v.Stub("github.com/bytedance/sonic/internal/encoder/alg.Quote", func(buf []byte, val string, double bool) []byte {
 		buf = append(buf, '"')
